@@ -4,6 +4,7 @@ package main
 // their obligations, matches known findings, replays counterexamples, writes evidence.
 
 import (
+	"os/exec"
 	"encoding/json"
 	"go/types"
 	"fmt"
@@ -104,6 +105,82 @@ func obligationScript(ob *Obligation, wantModel bool) string {
 	return theU.Script(logicPrelude, as, ob.Goal, wantModel)
 }
 
+// runMustFail (thorough tier): every seeded change kept under <verif>/seeded for this property
+// is applied to a scratch copy of the repository (outside /repo and /verif, removed afterwards)
+// and the quick check is run against it; a change the check does not flag is a weakness of the
+// check and is reported in the evidence (it is not a violation of the unchanged tree).
+func runMustFail(opt Options) map[string]interface{} {
+	res := map[string]interface{}{}
+	dirs, _ := filepath.Glob(filepath.Join(opt.VerifDir, "seeded", "*", "meta.json"))
+	sort.Strings(dirs)
+	var caught, missed, skipped []string
+	self, err := os.Executable()
+	if err != nil {
+		self = os.Args[0]
+	}
+	for _, mf := range dirs {
+		var meta struct {
+			Property string   `json:"property"`
+			Also     []string `json:"also"`
+		}
+		data, err := os.ReadFile(mf)
+		if err != nil || json.Unmarshal(data, &meta) != nil {
+			continue
+		}
+		applies := meta.Property == opt.Prop
+		for _, a := range meta.Also {
+			applies = applies || a == opt.Prop
+		}
+		if !applies {
+			continue
+		}
+		id := filepath.Base(filepath.Dir(mf))
+		patch := filepath.Join(filepath.Dir(mf), "patch.diff")
+		scratch, err := os.MkdirTemp("", "gowp-mustfail-")
+		if err != nil {
+			skipped = append(skipped, id+": "+err.Error())
+			continue
+		}
+		func() {
+			defer os.RemoveAll(scratch)
+			if out, err := exec.Command("cp", "-r", opt.Repo+"/.", scratch).CombinedOutput(); err != nil {
+				skipped = append(skipped, id+": copy failed: "+string(out))
+				return
+			}
+			os.RemoveAll(filepath.Join(scratch, ".git"))
+			ap := exec.Command("git", "apply", "--whitespace=nowarn", patch)
+			ap.Dir = scratch
+			ap.Env = append(os.Environ(), "GIT_CEILING_DIRECTORIES="+filepath.Dir(scratch))
+			if out, err := ap.CombinedOutput(); err != nil {
+				skipped = append(skipped, id+": patch does not apply to the current tree: "+strings.TrimSpace(string(out)))
+				return
+			}
+			sv := filepath.Join(scratch, ".verif")
+			os.MkdirAll(sv, 0o755)
+			exec.Command("cp", "-r", filepath.Join(opt.VerifDir, "ledger"), filepath.Join(opt.VerifDir, "KNOWN_FINDINGS.txt"), sv).Run()
+			c := exec.Command(self, "check", "--prop", opt.Prop, "--tier", "quick", "--repo", scratch, "--verif", sv)
+			c.Env = append(os.Environ(), "GOWP_NO_SELFTEST=1")
+			out, _ := c.CombinedOutput()
+			if strings.Contains(string(out), "\nVIOLATION ") || strings.HasPrefix(string(out), "VIOLATION ") {
+				caught = append(caught, id)
+			} else {
+				missed = append(missed, id)
+			}
+		}()
+	}
+	res["seeded_changes"] = len(caught) + len(missed)
+	res["flagged"] = caught
+	res["not_flagged"] = missed
+	res["skipped"] = skipped
+	for _, m := range missed {
+		fmt.Printf("SELFTEST-MISS: property=%s seeded change %s is not flagged by this check\n", opt.Prop, m)
+	}
+	return res
+}
+
+// solveAll: thorough tier - every obligation goes to all three solvers (cross-check).
+var solveAll bool
+
 func discharge(obs []*Obligation, outDir string, timeoutS int, order []string, workers int) {
 	// Term.Key memoises without synchronisation: print every shared term once, sequentially,
 	// so that the workers below only read.
@@ -129,7 +206,12 @@ func discharge(obs []*Obligation, outDir string, timeoutS int, order []string, w
 				}
 				script := obligationScript(ob, ob.Kind != "cover" && ob.Kind != "reach")
 				file := filepath.Join(outDir, fmt.Sprintf("%04d-%s", i, fileSafe(ob.Name)))
-				r := Solve(script, file, timeoutS, order)
+				var r SolveResult
+				if solveAll {
+					r = SolveAll(script, file, timeoutS, order)
+				} else {
+					r = Solve(script, file, timeoutS, order)
+				}
 				if r.Status == "unsat" && liveKinds[ob.Kind] {
 					// vacuity guard per obligation: are the path's assumptions satisfiable at all?
 					probe := &Obligation{Name: ob.Name, Kind: "reach", Assume: ob.Assume, Goal: False}
@@ -262,6 +344,7 @@ func RunCheck(opt Options) int {
 	order := []string{"z3-new", "cvc5", "z3"}
 	if opt.Tier == "thorough" {
 		timeout = 20
+		solveAll = true
 	}
 	var reports []*FuncReport
 	var obs []*Obligation
@@ -313,6 +396,14 @@ func RunCheck(opt Options) int {
 		visit = func(f *ssa.Function) {
 			for _, b := range f.Blocks {
 				for _, in := range b.Instrs {
+					// function values (literals without captured variables, method values)
+					for _, op := range in.Operands(nil) {
+						if op != nil && *op != nil {
+							if fv, ok := (*op).(*ssa.Function); ok {
+								add(fv)
+							}
+						}
+					}
 					switch v := in.(type) {
 					case ssa.CallInstruction:
 						add(v.Common().StaticCallee())
@@ -590,6 +681,28 @@ func RunCheck(opt Options) int {
 		"samples":                  samples,
 		"ledger_obligations":       len(ledger),
 	}
+	if opt.Tier == "thorough" {
+		cross, disagree := 0, 0
+		for _, ob := range obs {
+			n := 0
+			for _, t := range ob.Result.Tried {
+				if strings.Contains(t, ":unsat:") || strings.Contains(t, ":sat:") {
+					n++
+				}
+			}
+			if n >= 2 {
+				cross++
+			}
+			if ob.Result.Status == "disagree" {
+				disagree++
+			}
+		}
+		ev.Coverage["cross_checked_by_two_or_more_solvers"] = cross
+		ev.Coverage["solver_disagreements"] = disagree
+		if os.Getenv("GOWP_NO_SELFTEST") == "" && opt.Only == "" {
+			ev.Coverage["must_fail_corpus"] = runMustFail(opt)
+		}
+	}
 	as := append([]string{}, tb...)
 	for _, x := range uniq(ext) {
 		as = append(as, "assumed contract of external function (ext.go): "+x)
@@ -602,6 +715,14 @@ func RunCheck(opt Options) int {
 	}
 	for _, x := range uniq(unsup) {
 		as = append(as, "out of reach, abstracted: "+x)
+	}
+	var fvNames []string
+	for n := range P.ExtFuncValues {
+		fvNames = append(fvNames, n)
+	}
+	sort.Strings(fvNames)
+	for _, n := range fvNames {
+		as = append(as, "external function(s) "+strings.Join(P.ExtFuncValues[n], ", ")+" stored as "+n+": assumed to satisfy that functype contract")
 	}
 	ev.Assumptions = as
 	evPath := filepath.Join(opt.VerifDir, "evidence", opt.Prop+".json")
